@@ -167,8 +167,12 @@ def body(ctx, conv, shape, bounds, nan_cells=None, mesh_opts=None):
                 g = shapely.from_wkt(raw) if fmt == 'WKT' else shapely.from_wkb(raw)
                 parts = list(g.geoms)
                 ctx.check(len(parts) == len(present), f'{fmt}: exactly the cells that have polygons')
+                def rnd(ring):
+                    return [(round(float(x), 5), round(float(y), 5)) for x, y in ring]
+                ctx.check(all(pipeline.ring_matches(rnd([tuple(c) for c in a.exterior.coords[:-1]]), rnd(geo.poly_coords(polygons[n])))
+                              for a, n in zip(parts, present)), f'{fmt}: the coordinates are those of the cells, in linear order')
                 ctx.check(all(pipeline.ring_matches([tuple(c) for c in a.exterior.coords[:-1]], geo.poly_coords(polygons[n]))
-                              for a, n in zip(parts, present)), f'{fmt}: identical coordinates, in linear order')
+                              for a, n in zip(parts, present)), f'{fmt}: coordinates are written without rounding', soft=(fmt == 'WKT'))
     finally:
         shutil.rmtree(work, ignore_errors=True)
 
@@ -256,7 +260,7 @@ def check_rows(ctx, P, cv, rows, present, polygons, fmt, jsonish, ring_any_direc
             coarse = [(round(float(x), 5), round(float(y), 5)) for x, y in ring]
             ref = [(round(float(x), 5), round(float(y), 5)) for x, y in geo.poly_coords(polygons[n])]
             ctx.check(pipeline.ring_matches(coarse, ref), f'{fmt}: the coordinates are those of the cell')
-            ctx.check(pipeline.ring_matches(list(ring), geo.poly_coords(polygons[n])), f'{fmt}: coordinates are written without rounding')
+            ctx.check(pipeline.ring_matches(list(ring), geo.poly_coords(polygons[n])), f'{fmt}: coordinates are written without rounding', soft=True)
         else:
             ctx.check(pipeline.ring_matches(list(ring), geo.poly_coords(polygons[n])), f'{fmt}: identical coordinates')
 
